@@ -201,6 +201,10 @@ def obligations(tier, seed):
     for last in (0, 1):
         obs.append(_ob(f"C03.drain/last={last}", "h_drain", [f"last == {last}"], T, "first index, track length in sectors, stray tail bytes, byte index",
                        "track of 1..3 sectors / tail of 0..5000 bytes; whole transcoder loop"))
+    from vf.props import c17
+    for o in c17.obligations(tier, seed):
+        if o["name"] == "C17.meaning":
+            obs.append(dict(o, name="C03.parse"))       # text -> tracks: first index of a track = its first INDEX line, in file order
     obs.append(_ob("C03.dispatch", "h_dispatch", [], T, "number of tracks and mode of each (AUDIO/audio/MODE1/MODE2)", "<= 3 tracks",
                    stubs=["open/determine_image_type/from_bin_cue recorders"]))
     return obs
